@@ -368,6 +368,7 @@ func Worker(t *testing.T) {
 			fmt.Fprintf(pf, "RUN %s %d %d        \n", prop, seed, run)
 		}
 		curRun.Store(int64(run))
+		sim.Progress.Add(1)
 		tape := sim.NewTape(seed, prop, run)
 		o := runOnce(t, c, tape, tier)
 		res.Runs++
